@@ -9,6 +9,6 @@ trap 'rm -rf "$S"' EXIT
 rsync -a --exclude .git "$REPO"/ "$S"/
 if ! (cd "$S" && patch -p1 -s --no-backup-if-mismatch < "$PATCH" >/dev/null 2>&1); then echo "$NAME NOAPPLY"; exit 0; fi
 for prop in "$@"; do
-  out=$(/verif/bin/sqlcheck -repo "$S" -prop "$prop" -no-evidence -out "$S/.out" 2>&1)
+  out=$(timeout 900 /verif/bin/sqlcheck -repo "$S" -prop "$prop" -no-evidence -out "$S/.out" 2>&1)
   if echo "$out" | grep -q "^VIOLATION"; then echo "$NAME $prop DETECTED $(echo "$out" | grep -E '^  (violation|undecided)' | head -1 | cut -c1-200)"; else echo "$NAME $prop silent"; fi
 done
